@@ -8,6 +8,14 @@ namespace F1.Props.FactsC19
 
 theorem fact_log_IterationStatsGroup : F1.Generated.skel_log_IterationStatsGroup = F1.Expected.skel_log_IterationStatsGroup := by rfl
 theorem fact_result_Summary : F1.Generated.skel_result_Summary = F1.Expected.skel_result_Summary := by rfl
+theorem fact_result_Progress : F1.Generated.skel_result_Progress = F1.Expected.skel_result_Progress := by rfl
+theorem fact_views_ResultLog : F1.Generated.skel_views_ResultLog = F1.Expected.skel_views_ResultLog := by rfl
+theorem fact_views_Result : F1.Generated.skel_views_Result = F1.Expected.skel_views_Result := by rfl
+theorem fact_views_ProgressLog : F1.Generated.skel_views_ProgressLog = F1.Expected.skel_views_ProgressLog := by rfl
+theorem fact_views_Progress : F1.Generated.skel_views_Progress = F1.Expected.skel_views_Progress := by rfl
+theorem fact_views_render : F1.Generated.skel_views_render = F1.Expected.skel_views_render := by rfl
+theorem fact_snapshot_Iterations : F1.Generated.skel_snapshot_Iterations = F1.Expected.skel_snapshot_Iterations := by rfl
+theorem fact_snapshot_IterationsStarted : F1.Generated.skel_snapshot_IterationsStarted = F1.Expected.skel_snapshot_IterationsStarted := by rfl
 theorem fact_tmpl_result : F1.Generated.tmpl_result = F1.Expected.tmpl_result := by rfl
 theorem fact_tmpl_progress : F1.Generated.tmpl_progress = F1.Expected.tmpl_progress := by rfl
 
